@@ -157,6 +157,8 @@ PagesOK(pp, limit, S) ==
 ListOK(w, S) == /\ w.keyres = "ok" /\ w.offres = "ok"
                 /\ PagesOK(w.key, w.limit, S) /\ PagesOK(w.offset, w.limit, S)
                 /\ \A i \in DOMAIN w.totals : w.totals[i] = Cardinality(S)
+                \* one page of 1000 continued from the cursor after the first entry holds exactly the rest
+                /\ ("bigres" \in DOMAIN w /\ Cardinality(S) >= 2) => (w.bigres = "ok" /\ w.bigkey = Tail(Flat(w.key)))
 HasKey(s, reg, key) ==
   CASE reg = "attesters" -> key \in s.attesters
     [] reg = "limits"    -> \E x \in s.limits : x.denom = key
